@@ -128,7 +128,7 @@ impl Prop for C04 {
         Ok(())
     }
     fn rule(&self) -> String {
-        "generated (date mixture, site |lat|<=60 with extra mass at lat = oracle declination of the date +-0.2/+-3 deg (zenith passage, constructed), GMT within 3 h, method); each case is evaluated under both schools. Non-trivial = Asr exists under both schools (altitude, order and Hanafi>Shafi all checked); distinct by hash of the case".into()
+        "generated (date mixture, site |lat|<=60 with extra mass at lat = oracle declination of the date +-0.2/+-3 deg (zenith passage, constructed), GMT within 3 h, method); each case is evaluated under both schools. One case in 5 pairs the longitude with a GMT offset up to 12 h away; every evaluation is preceded by a priming call with a sibling input. Non-trivial = Asr exists under both schools (altitude, order and Hanafi>Shafi all checked); distinct by hash of the case".into()
     }
     fn assumptions(&self) -> Vec<String> {
         vec!["date's declination = oracle declination at local 0h; hour angle from reported Dhuhr, truncated seconds".into()]
